@@ -4,7 +4,7 @@ import KanidmModel.LdapGateway
 Driver for C40 (stateful: one world + one LDAP connection).  Strings (DNs, names) travel as
 dot-separated code points (`-` = empty); naturals in decimal; `-` = `None` / empty list.
 
-  world <ct> <flag 0|1> <anonymous> <maxattrs> <basedn>      start a new world (no accounts), new connection
+  world <ct> <flag 0|1> <anonymous> <maxattrs> <basedn>      start a new world (no accounts); the connection stays
   ct <n> | flag <0|1>                                         change the time / the unix-bind flag
   name <chars> <uuid>                                         `name_to_uuid` row (lower-cased input)
   acct <uuid> <isAccount> <validFrom|-> <expire|-> <unixPw|-> <needsUpgrade> <memberOf,..|-> <app:pw,..|->
@@ -14,10 +14,9 @@ dot-separated code points (`-` = empty); naturals in decimal; `-` = `None` / emp
   tok <pw> apit <account> <tokenId> <issuedAt> <expiry|-> <ro|rw|sync>
   apisess <ids|->   uatvalid <ids|->
   conn                                                        new connection (unbound)
-  bind <dn> <pw> <softlocked 0|1> | search <base> <base|one|sub|children> <nattrs> | compare <dn> | op <WireOp>
+  bind <dn> <pw> <softlocked 0|1> | search <base> <base|one|sub|children> <nattrs> <late code|-> | compare <dn> <late code|-> | op <WireOp>
         → `<outcome> sess=<session|-> closed=<0|1> ident=<entry:scope | err:<e> | -> delayed=<kind:uuid:pw,..|->`
-     `ident` = `validate_ldap_session` of the token the request used (the connection's, else the
-     implicit bind's), whatever the request was.
+     `ident` = `validate_ldap_session` of the connection's session after the request.
   native <pw>                                                 → `<entry:scope | err:<e>>` (`nativeTokenIdent`)
   dbsteps <WireOp> <bound 0|1>                                → transaction kinds the request opens, e.g. `auth:read,proxyRead:read`
 -/
@@ -90,6 +89,13 @@ def wireOp? (s : String) : Option WireOp :=
     "compareRequest", "compareResult", "abandonRequest", "extendedWhoami", "extendedOther",
     "extendedResponse", "intermediateResponse"]).find? (·.2 == s) |>.map (·.1)
 
+/-- `-` = the search itself succeeds; otherwise the result code of its failure. -/
+def code? (s : String) : Option (Option Code) :=
+  if s == "-" then some none
+  else ([Code.success, .invalidCredentials, .constraintViolation, .invalidAttributeSyntax, .unwillingToPerform,
+         .other, .operationsError, .protocolError, .noSuchObject, .compareTrue, .compareFalse].find?
+          (fun c => showCode c == s)).map some
+
 def scope? (s : String) : Option SScope :=
   match s with
   | "base" => some .base | "one" => some .oneLevel | "sub" => some .subtree | "children" => some .children
@@ -100,9 +106,8 @@ def request (st : St) (m : Msg) : St × String :=
   let r := st.c.step st.w m
   let c' := r.1
   let o := r.2.1
-  -- the token the request's handler used: the connection's, else the implicit bind's
-  let used : Option Token := match st.c.session with | some t => some t | none => o.token
-  let ident := match used with
+  -- the identity `validate_ldap_session` derives for the connection's session after the request
+  let ident := match c'.session with
     | some t => showIdent (validateLdapSession st.w t.session)
     | none => "-"
   ({ st with c := c' },
@@ -119,9 +124,9 @@ def handle (st : St) (line : String) : St × String :=
   | ["world", ct, flag, anon, maxa, base] =>
     match nat? ct, bool? flag, nat? anon, nat? maxa, chars? base with
     | some ct, some flag, some anon, some maxa, some base =>
-      ({ w := { ct := ct, basedn := base, anonymous := anon, names := [], accts := [], apps := [],
-                allowUnixPwBind := flag, tokens := [], apiSessions := [], uatValid := [], maxAttrs := maxa },
-         c := Conn.start }, "ok")
+      let w : World := { ct := ct, basedn := base, anonymous := anon, names := [], accts := [], apps := [],
+                         allowUnixPwBind := flag, tokens := [], apiSessions := [], uatValid := [], maxAttrs := maxa }
+      ({ st with w := w }, "ok")
     | _, _, _, _, _ => (st, "bad-op")
   | ["ct", n] => match nat? n with
     | some n => ({ st with w := { st.w with ct := n } }, "ok") | none => (st, "bad-op")
@@ -171,12 +176,12 @@ def handle (st : St) (line : String) : St × String :=
   | ["bind", dn, pw, sl] => match chars? dn, nat? pw, bool? sl with
     | some dn, some pw, some sl => request st (.bind dn pw sl)
     | _, _, _ => (st, "bad-op")
-  | ["search", base, sc, n] => match chars? base, scope? sc, nat? n with
-    | some base, some sc, some n => request st (.search base sc n)
-    | _, _, _ => (st, "bad-op")
-  | ["compare", dn] => match chars? dn with
-    | some dn => request st (.compare dn)
-    | none => (st, "bad-op")
+  | ["search", base, sc, n, late] => match chars? base, scope? sc, nat? n, code? late with
+    | some base, some sc, some n, some late => request st (.search base sc n late)
+    | _, _, _, _ => (st, "bad-op")
+  | ["compare", dn, late] => match chars? dn, code? late with
+    | some dn, some late => request st (.compare dn late)
+    | _, _ => (st, "bad-op")
   | ["op", o] => match wireOp? o with
     | some o => request st (.other o)
     | none => (st, "bad-op")
